@@ -252,3 +252,113 @@ Proof.
   - apply IH.
   - left. apply post_dco_no_change. exact E.
 Qed.
+
+(* ---------- ... and the fuel is enough when no net reads an Output ---------- *)
+Definition outputs_unread (nl : netlist) : Prop :=
+  forall x n, In x (wires nl) -> wkind x = KOutput -> In n (nets nl) -> ~ In (wname x) (nargs n).
+
+Lemma find_wire_in ws w x : find_wire ws w = Some x -> In x ws /\ wname x = w.
+Proof.
+  induction ws as [|y r IH]; cbn; [discriminate|].
+  destruct (wname y =? w) eqn:E.
+  - intro H. injection H as ->. split; [left; reflexivity|lia].
+  - intro H. destruct (IH H). split; [right; assumption|assumption].
+Qed.
+
+Lemma mem_in_spec w l : mem_in w l = true <-> In w l.
+Proof.
+  unfold mem_in. rewrite existsb_exists. split.
+  - intros (y & Hy & E). replace w with y by lia. exact Hy.
+  - intro H. exists w. split; [exact H|lia].
+Qed.
+
+Lemma filter_readers_nil w ns : (forall n, In n ns -> ~ In w (nargs n)) ->
+  filter (fun n => mem_in w (nargs n)) ns = [].
+Proof.
+  induction ns as [|n r IH]; intro H; [reflexivity|]. cbn [filter].
+  destruct (mem_in w (nargs n)) eqn:Em.
+  - exfalso. apply mem_in_spec in Em. apply (H n); [left; reflexivity|exact Em].
+  - apply IH. intros m Hm. apply H. right. exact Hm.
+Qed.
+
+Lemma output_no_readers nl w : outputs_unread nl -> is_output nl w = true -> readers nl w = [].
+Proof.
+  intros Hu Ho. unfold is_output, kind_of in Ho.
+  destruct (find_wire (wires nl) w) as [x|] eqn:E; [|discriminate].
+  destruct (find_wire_in _ _ _ E) as [Hin Hnm]. destruct (wkind x) eqn:Ek; try discriminate.
+  unfold readers. apply filter_readers_nil. intros n Hn. rewrite <- Hnm. apply (Hu x n Hin Ek Hn).
+Qed.
+
+Lemma flat_map_shrinks {A} (f : A -> list A) l r0 :
+  (forall x, (length (f x) <= 1)%nat) -> In r0 l -> f r0 = [] ->
+  (length (flat_map f l) < length l)%nat.
+Proof.
+  intros H1 Hin H0.
+  assert (Hle : forall l', (length (flat_map f l') <= length l')%nat).
+  { induction l' as [|y r IH]; cbn; [lia|]. rewrite app_length. specialize (H1 y). lia. }
+  induction l as [|y r IH]; [destruct Hin|].
+  cbn [flat_map length]. rewrite app_length. destruct Hin as [->|Hin].
+  - rewrite H0. cbn. specialize (Hle r). lia.
+  - specialize (IH Hin). specialize (H1 y). lia.
+Qed.
+
+Lemma dco_net_le1 nl rm n : (length (dco_net dco_skips nl rm n) <= 1)%nat.
+Proof.
+  unfold dco_net. destruct (dco_candidate dco_skips nl n); [cbn; lia|].
+  destruct (nop n); cbn; try lia. destruct (mem_in (ndest n) rm); cbn; lia.
+Qed.
+
+Lemma dco_candidate_some nl n r : dco_candidate dco_skips nl n = Some r ->
+  In r (nets nl) /\ nop r = OpW /\ is_output nl (ndest r) = true.
+Proof.
+  unfold dco_candidate. destruct (dco_skips (nop n)); [discriminate|].
+  destruct (readers nl (ndest n)) as [|r0 [|? ?]] eqn:Er; try discriminate.
+  destruct (nop r0) eqn:Eo; try discriminate. destruct (is_output nl (ndest r0)) eqn:Ei; [|discriminate].
+  intro H. injection H as <-. repeat split; auto.
+  assert (Hin : In r0 (readers nl (ndest n))) by (rewrite Er; left; reflexivity).
+  unfold readers in Hin. apply filter_In in Hin. apply Hin.
+Qed.
+
+Lemma dco_pass_shrinks nl : outputs_unread nl -> dco_changes dco_skips nl = true ->
+  (length (nets (dco_with dco_skips nl)) < length (nets nl))%nat.
+Proof.
+  intros Hu Hc. unfold dco_changes in Hc. apply existsb_exists in Hc. destruct Hc as (n0 & Hn0 & Hc).
+  destruct (dco_candidate dco_skips nl n0) as [r0|] eqn:E0; [|discriminate].
+  destruct (dco_candidate_some nl n0 r0 E0) as (Hr0 & Hw & Ho).
+  unfold dco_with. cbn [nets]. apply (flat_map_shrinks _ _ r0); [apply dco_net_le1|exact Hr0|].
+  unfold dco_net.
+  assert (Hnone : dco_candidate dco_skips nl r0 = None).
+  { unfold dco_candidate. rewrite Hw. cbn [dco_skips]. rewrite (output_no_readers nl _ Hu Ho). reflexivity. }
+  rewrite Hnone, Hw.
+  assert (Hrm : mem_in (ndest r0) (dco_removed_dests dco_skips nl) = true).
+  { apply mem_in_spec. unfold dco_removed_dests. apply in_flat_map. exists n0. split; [exact Hn0|].
+    rewrite E0. left. reflexivity. }
+  rewrite Hrm. reflexivity.
+Qed.
+
+Lemma dco_pass_unread nl : outputs_unread nl -> outputs_unread (dco_with dco_skips nl).
+Proof.
+  intros Hu x n Hx Hk Hn. unfold dco_with in *. cbn [wires nets] in *.
+  apply filter_In in Hx. destruct Hx as [Hx _].
+  apply in_flat_map in Hn. destruct Hn as (m & Hm & Hn).
+  assert (Ha : nargs n = nargs m).
+  { unfold dco_net in Hn. destruct (dco_candidate dco_skips nl m).
+    - destruct Hn as [<-|[]]. reflexivity.
+    - destruct (nop m); try (destruct Hn as [<-|[]]; reflexivity).
+      destruct (mem_in (ndest m) (dco_removed_dests dco_skips nl)); [destruct Hn|destruct Hn as [<-|[]]; reflexivity]. }
+  rewrite Ha. apply (Hu x m Hx Hk Hm).
+Qed.
+
+Theorem dco_post nl : outputs_unread nl ->
+  post_direct_connect_outputs (direct_connect_outputs nl) = true.
+Proof.
+  intro Hu. unfold direct_connect_outputs. apply post_dco_no_change.
+  assert (H : forall fuel nl0, outputs_unread nl0 -> (length (nets nl0) <= fuel)%nat ->
+                dco_changes dco_skips (dco_iter dco_skips fuel nl0) = false).
+  { induction fuel as [|f IH]; intros nl0 Hu0 Hl; cbn [dco_iter].
+    - unfold dco_changes. destruct (nets nl0); [reflexivity|cbn in Hl; lia].
+    - destruct (dco_changes dco_skips nl0) eqn:E; [|exact E].
+      apply IH; [apply dco_pass_unread; exact Hu0|].
+      pose proof (dco_pass_shrinks nl0 Hu0 E). lia. }
+  apply H; [exact Hu|lia].
+Qed.
